@@ -245,19 +245,32 @@ def getitem(eng, st, base, sl):
         if kind[0] == 'all':
             return r
         if kind[0] == 'rev':
+            # a[::-1] as a NAMED array with a defining axiom (instead of a lambda that beta-reduces to a[n-1-q]): positions of the
+            # reversed array then occur as plain indices in later terms, which keeps quantifier patterns usable
             n = to_z3(r.n, INT)
-            return Row(r.n, lambda q, r=r, n=n: r.fn(n - 1 - q), r.esort)
+            t_ = fresh('rev', arr_sort(1, r.esort))
+            q_ = z3.Int('q!rv')
+            st.pc.append(z3.ForAll([q_], z3.Implies(z3.And(q_ >= 0, q_ < n), z3.Select(t_, q_) == to_z3(r.fn(n - 1 - q_), r.esort)), patterns=[z3.Select(t_, q_)]))
+            return alloc(st, 1, t_, (r.n,), r.esort)
         if kind[0] == 'fancy':
             f = kind[1]
             return Row(f.n, lambda q, r=r, f=f: r.fn(f.fn(q)), r.esort)
         if kind[0] == 'slice':
+            n_ = to_z3(r.n, INT)
             lo = to_z3(kind[1], INT) if kind[1] is not None else z3.IntVal(0)
-            hi = to_z3(kind[2], INT) if kind[2] is not None else to_z3(r.n, INT)
-            # numpy clamps slice bounds silently (and counts negative ones from the end); the encoding does not, so the bounds
-            # being in range and ordered is an obligation
+            hi = to_z3(kind[2], INT) if kind[2] is not None else n_
+            # numpy semantics of a[lo:hi] for NON-NEGATIVE bounds: both are clamped to the length and an inverted range is empty.
+            # Negative bounds count from the end; they are not modelled: non-negativity is an obligation.
             if kind[1] is not None or kind[2] is not None:
-                eng.oblige(st, 'bounds/slice:%s' % ast.unparse(sl)[:24], z3.And(lo >= 0, lo <= hi, hi <= to_z3(r.n, INT)), kind='safety')
-            return Row(hi - lo, lambda q, r=r, lo=lo: r.fn(lo + q), r.esort)
+                eng.oblige(st, 'bounds/slice-nonnegative:%s' % ast.unparse(sl)[:24], z3.And(lo >= 0, hi >= 0), kind='safety')
+                lo = z3.simplify(z3.If(lo <= n_, lo, n_))
+                hi = z3.simplify(z3.If(hi <= n_, hi, n_))
+                ln = z3.simplify(z3.If(hi >= lo, hi - lo, 0))
+            else:
+                ln = hi - lo
+            out = Row(ln, lambda q, r=r, lo=lo: r.fn(lo + q), r.esort)
+            out.slice_of = (r, lo, ln)          # lets a scatter store quantify over positions of the sliced row (no offset arithmetic)
+            return out
         raise OutOfSubset('1-D index kind %s' % kind[0])
     if nd == 2:
         m = as_mat(eng, st, base)
@@ -322,6 +335,19 @@ def getitem(eng, st, base, sl):
             return Row(f0.n, lambda q, m=m, f0=f0, f1=f1: m.fn(f0.fn(q), f1.fn(q)), m.esort)
         raise OutOfSubset('2-D index kinds %s,%s' % (k0[0], k1[0]))
     raise OutOfSubset('subscript of scalar')
+
+
+def _scatter_hit(f0, f1):
+    """hit(x, y): some position of the paired index rows (f0, f1) addresses the cell (x, y)."""
+    t = z3.Int('t!sc')
+    s0, s1 = getattr(f0, 'slice_of', None), getattr(f1, 'slice_of', None)
+    if s0 is not None and s1 is not None and z3.simplify(s0[1] - s1[1]).eq(z3.IntVal(0)) and z3.simplify(to_z3(s0[2], INT) - to_z3(s1[2], INT)).eq(z3.IntVal(0)):
+        # both index rows are the same slice [lo:hi] of two rows: quantify over the position u in the sliced rows, so that the
+        # bound variable occurs as a plain index (I[u]) and not inside an offset (I[lo + t])
+        b0, lo_, ln_ = s0
+        b1 = s1[0]
+        return lambda x, y: z3.Exists([t], z3.And(t >= lo_, t < lo_ + to_z3(ln_, INT), to_z3(b0.fn(t), INT) == x, to_z3(b1.fn(t), INT) == y))
+    return lambda x, y: z3.Exists([t], z3.And(t >= 0, t < to_z3(f0.n, INT), to_z3(f0.fn(t), INT) == x, to_z3(f1.fn(t), INT) == y))
 
 
 def setitem(eng, st, base, sl, val, node):
@@ -397,7 +423,7 @@ def setitem(eng, st, base, sl, val, node):
             f0, f1 = kind[1], kind[2]
             v = to_z3(val, o.esort)
             t = z3.Int('t!sc')
-            hitc = lambda x, y: z3.Exists([t], z3.And(t >= 0, t < to_z3(f0.n, INT), to_z3(f0.fn(t), INT) == x, to_z3(f1.fn(t), INT) == y))
+            hitc = _scatter_hit(f0, f1)
             o.term = define2(st, o.esort, lambda x, y: z3.If(hitc(x, y), v, z3.Select(z3.Select(old, x), y)))
             return
         if kind[0] == 'mask2':
@@ -485,9 +511,8 @@ def setitem(eng, st, base, sl, val, node):
         # W[rowsA, rowsB] = scalar: numpy pairs the two index arrays element by element
         f0, f1 = k0[1], k1[1]
         v = to_z3(val, o.esort)
-        t = z3.Int('t!sc')
-        o.term = define2(st, o.esort, lambda xx, yy: z3.If(z3.Exists([t], z3.And(t >= 0, t < to_z3(f0.n, INT), to_z3(f0.fn(t), INT) == xx, to_z3(f1.fn(t), INT) == yy)), v,
-                                                          z3.Select(z3.Select(old, xx), yy)))
+        hit2 = _scatter_hit(f0, f1)
+        o.term = define2(st, o.esort, lambda xx, yy: z3.If(hit2(xx, yy), v, z3.Select(z3.Select(old, xx), yy)))
         return
     raise OutOfSubset('2-D store kinds %s,%s' % (k0[0], k1[0]))
 
